@@ -476,6 +476,7 @@ pub fn c01_withdraw(m: &mut Mon, ctx: &StepCtx, stats: &mut Stats, out: &mut Vec
                         let (v2, _) = released_claim_value(&mine, &h2.history);
                         if v2 >= 1 {
                             viol(out, "C01", "withdraw_independent_of_order", ctx.idx, "hub.WithdrawUnbonded:order_dependent_failure", format!("{}'s withdraw failed ({}) but succeeds with {} after another claimant releases the batches", signer, err, v2));
+                            viol(out, "C09", "matured_claim_is_withdrawable", ctx.idx, "hub.WithdrawUnbonded:order_dependent_failure", format!("{}'s withdraw of a matured claim failed ({}) although it is worth {} once another claimant has released the batches", signer, err, v2));
                         }
                     }
                 } else if m.inflow > 0 {
@@ -495,6 +496,7 @@ pub fn c01_withdraw(m: &mut Mon, ctx: &StepCtx, stats: &mut Stats, out: &mut Vec
                         // rounding can cost a claimant up to ~5 units (split, -1 against the claimant, rate floor, claim floor)
                         if share >= 6 {
                             viol(out, "C01", "arrived_coins_not_stuck", ctx.idx, "hub.WithdrawUnbonded:funds_stuck", format!("{} coins arrived for due batches {:?}, {}'s pro-rata share is {}, yet withdraw fails: {}", m.inflow, due, signer, share, err));
+                            viol(out, "C09", "matured_claim_is_withdrawable", ctx.idx, "hub.WithdrawUnbonded:funds_stuck", format!("the unbonding period of batches {:?} has passed and {} coins arrived ({}'s pro-rata share: {}), yet WithdrawUnbonded fails: {}", due, m.inflow, signer, share, err));
                         }
                     }
                 }
